@@ -30,6 +30,7 @@ def MOp.map {α β} (f : α → β) : MOp α → MOp β
   | .extendWithin a b => .extendWithin a b
   | .resize n x => .resize n (f x)
   | .retainNonNull => .retainNonNull
+  | .append x => .append (f x)
 
 /-! ### lists -/
 
@@ -136,9 +137,13 @@ theorem filter_map_nn {α β} (f : α → β) (na : α → Bool) (nb : β → Bo
   | nil => rfl
   | cons x r ih => simp only [List.map_cons, List.filter_cons, h x]; split <;> simp [ih]
 
-theorem arrOp_map {α β} (f : α → β) (na : α → Bool) (nb : β → Bool) (h : ∀ x, nb (f x) = na x) (xs : List α) (op : MOp α) :
-    arrOp nb (xs.map f) (op.map f) = (arrOp na xs op).map (fun r => (r.1.map f, r.2.map f)) := by
+theorem arrOp_map {α β} (f : α → β) (na : α → Bool) (nb : β → Bool) (h : ∀ x, nb (f x) = na x)
+    (ea : α → Option (List α)) (eb : β → Option (List β)) (he : ∀ x, eb (f x) = (ea x).map (List.map f)) (xs : List α) (op : MOp α) :
+    arrOp nb eb (xs.map f) (op.map f) = (arrOp na ea xs op).map (fun r => (r.1.map f, r.2.map f)) := by
   cases op with
+  | append x =>
+    simp only [arrOp, MOp.map, he]
+    cases ea x <;> simp [Out.map]
   | push x => simp [arrOp, MOp.map, Out.map]
   | pop =>
     simp only [arrOp, MOp.map, Option.map_some, List.getLast?_map]
@@ -197,10 +202,25 @@ theorem filter_map_nnM {α β} (f : α → β) (na : α → Bool) (nb : β → B
   | nil => rfl
   | cons x r ih => simp only [List.map_cons, List.filter_cons, h x.2]; split <;> simp [ih]
 
-theorem objOp_map {α β} (f : α → β) (na : α → Bool) (nb : β → Bool) (h : ∀ x, nb (f x) = na x) (nul : α) (ms : List (Key × α)) (op : MOp α) :
-    objOp nb (f nul) (ms.map (fun p => (p.1, f p.2))) (op.map f) =
-      (objOp na nul ms op).map (fun r => (r.1.map (fun p => (p.1, f p.2)), r.2.map f)) := by
+theorem foldl_insertKey_map {α β} (f : α → β) (ys : List (Key × α)) : ∀ (ms : List (Key × α)),
+    (ys.map (fun p => (p.1, f p.2))).foldl (fun acc p => insertKey p.1 p.2 acc) (ms.map (fun p => (p.1, f p.2))) =
+      (ys.foldl (fun acc p => insertKey p.1 p.2 acc) ms).map (fun p => (p.1, f p.2)) := by
+  induction ys with
+  | nil => intro ms; rfl
+  | cons y r ih =>
+    intro ms
+    simp only [List.map_cons, List.foldl_cons]
+    rw [← insertKey_map, ih]
+
+theorem objOp_map {α β} (f : α → β) (na : α → Bool) (nb : β → Bool) (h : ∀ x, nb (f x) = na x)
+    (ma : α → Option (List (Key × α))) (mb : β → Option (List (Key × β)))
+    (hm : ∀ x, mb (f x) = (ma x).map (List.map (fun p => (p.1, f p.2)))) (nul : α) (ms : List (Key × α)) (op : MOp α) :
+    objOp nb mb (f nul) (ms.map (fun p => (p.1, f p.2))) (op.map f) =
+      (objOp na ma nul ms op).map (fun r => (r.1.map (fun p => (p.1, f p.2)), r.2.map f)) := by
   cases op with
+  | append x =>
+    simp only [objOp, MOp.map, hm]
+    cases ma x <;> simp [Out.map, foldl_insertKey_map]
   | clear => simp [objOp, MOp.map, Out.map]
   | objInsert k x =>
     simp only [objOp, MOp.map, lookup_map, Option.map_some, insertKey_map]
@@ -242,26 +262,32 @@ theorem scalarOp_refines (v : DV) (op : MOp DV) (hn : ∀ xs, v ≠ .arrNode xs)
 theorem isNull_abs (x : DV) : (abs x).isNull = x.isNull := by
   cases x <;> simp [abs, J.isNull, DV.isNull]
 
+theorem elems_abs (x : DV) : J.elems (abs x) = (DV.elems x).map (List.map abs) := by
+  cases x <;> simp [DV.elems, J.elems, promote, abs, absL_eq_map]
+
+theorem members_abs (x : DV) : J.members (abs x) = (DV.members x).map (List.map (fun p => (p.1, abs p.2))) := by
+  cases x <;> simp [DV.members, J.members, promote, abs, absM_eq_map, map_dedupFirst]
+
 theorem applyC_refines (op : MOp DV) (v : DV) :
     abs (DV.applyC op v).1 = (J.applyC (op.map abs) (abs v)).1 ∧
       (DV.applyC op v).2.map abs = (J.applyC (op.map abs) (abs v)).2 := by
   cases v with
   | arrNode xs =>
-    simp only [DV.applyC, J.applyC, promote, abs, absL_eq_map, arrOp_map abs DV.isNull J.isNull isNull_abs]
-    cases arrOp DV.isNull xs op <;> simp [abs, absL_eq_map, Out.map]
+    simp only [DV.applyC, J.applyC, promote, abs, absL_eq_map, arrOp_map abs DV.isNull J.isNull isNull_abs DV.elems J.elems elems_abs]
+    cases arrOp DV.isNull DV.elems xs op <;> simp [abs, absL_eq_map, Out.map]
   | arrMut xs =>
-    simp only [DV.applyC, J.applyC, promote, abs, absL_eq_map, arrOp_map abs DV.isNull J.isNull isNull_abs]
-    cases arrOp DV.isNull xs op <;> simp [abs, absL_eq_map, Out.map]
+    simp only [DV.applyC, J.applyC, promote, abs, absL_eq_map, arrOp_map abs DV.isNull J.isNull isNull_abs DV.elems J.elems elems_abs]
+    cases arrOp DV.isNull DV.elems xs op <;> simp [abs, absL_eq_map, Out.map]
   | objNode ms =>
     have e : abs DV.null = J.null := rfl
     simp only [DV.applyC, J.applyC, promote, abs, absM_eq_map, ← map_dedupFirst]
-    rw [← e, objOp_map abs DV.isNull J.isNull isNull_abs]
-    cases objOp DV.isNull DV.null (dedupFirst ms) op <;> simp [abs, absM_eq_map, Out.map, map_dedupFirst]
+    rw [← e, objOp_map abs DV.isNull J.isNull isNull_abs DV.members J.members members_abs]
+    cases objOp DV.isNull DV.members DV.null (dedupFirst ms) op <;> simp [abs, absM_eq_map, Out.map, map_dedupFirst]
   | objMut ms =>
     have e : abs DV.null = J.null := rfl
     simp only [DV.applyC, J.applyC, promote, abs, absM_eq_map]
-    rw [← e, objOp_map abs DV.isNull J.isNull isNull_abs]
-    cases objOp DV.isNull DV.null ms op <;> simp [abs, absM_eq_map, Out.map]
+    rw [← e, objOp_map abs DV.isNull J.isNull isNull_abs DV.members J.members members_abs]
+    cases objOp DV.isNull DV.members DV.null ms op <;> simp [abs, absM_eq_map, Out.map]
   | null => exact scalarOp_refines .null op (by simp) (by simp) (by simp) (by simp)
   | bool b => exact scalarOp_refines (.bool b) op (by simp) (by simp) (by simp) (by simp)
   | num n => exact scalarOp_refines (.num n) op (by simp) (by simp) (by simp) (by simp)
